@@ -218,15 +218,28 @@ def attr_str(f):
     return "#[%s(%s)]" % (head, ", ".join(parts))
 
 
-def field_decl(f):
+def field_decl(f, owner=""):
     t = ty_str(f["ty"])
     if f["array"]:
         t = "[%s; %d]" % (t, f["array"]["k"])
     lines = []
     doc = f["doc"] or ["field %s" % f["name"].replace("r#", "")]
-    for d in doc:
-        lines.append("    /// %s" % d)
-    lines.append("    %s" % attr_str(f))
+    # where the user wrote the documentation: before the bit attribute (usual), after it, both, or as #[doc = ..]
+    dv = h("docpos", owner, f["name"]) % 8
+    before = ["    /// %s" % d for d in doc]
+    if dv == 0:
+        lines.append("    %s" % attr_str(f))
+        lines += before
+    elif dv == 1:
+        lines += before
+        lines.append("    %s" % attr_str(f))
+        lines.append("    /// (continued after the attribute)")
+    elif dv == 2:
+        lines += ["    #[doc = \"%s\"]" % d for d in doc]
+        lines.append("    %s" % attr_str(f))
+    else:
+        lines += before
+        lines.append("    %s" % attr_str(f))
     lines.append("    %s: %s," % (f["name"], t))
     return lines
 
@@ -266,7 +279,7 @@ def render_struct(s):
         lines.append(a)
     lines.append("pub struct %s {" % s["name"])
     for f in s["fields"]:
-        lines.extend(field_decl(f))
+        lines.extend(field_decl(f, s["name"]))
     lines.append("}")
     return lines
 
@@ -536,6 +549,105 @@ def fam_abase(tier, seed):
                     w = hi - lo + 1
                     fs.append(field("f%d_%d" % (lo, hi), [(lo, hi)], T_uint(w), syn=h("abd", N, lo, hi) % 12))
                 out.append(struct("abase_dense", "AX%d_%d" % (N, lo), N, fs, family="ABASE"))
+    return out
+
+
+ZOO_QUICK = [8, 16, 32, 64, 128, 7, 9, 12, 17, 24, 33, 48, 65, 100, 127]
+
+
+def fam_zoo(tier, seed):
+    """the same rich layout on every base class: signed / non-contiguous / array / custom fields that
+    touch the top bit of the declared base (where storage padding begins on arbitrary-int bases)"""
+    out = []
+    mod = "zoo"
+    x2 = mk_enum(mod, "ZX2", 2, [0, 1, 2, 3], family="ZOO")
+    o3 = mk_enum(mod, "ZO3", 3, [1, 6], family="ZOO")
+    x8 = mk_enum(mod, "ZX8", 8, list(range(256)), family="ZOO")
+    in3 = struct(mod, "ZIn3", 3, [field("a", [(0, 0)], T_bool()), field("b", [(1, 2)], T_uint(2))], family="ZOO")
+    in8 = struct(mod, "ZIn8", 8, [field("a", [(0, 7)], T_uint(8))], family="ZOO")
+    out += [x2, o3, x8, in3, in8]
+    bases = ZOO_QUICK if tier == "quick" else list(range(1, 129))
+    for N in bases:
+        top = N - 1
+        fs = []
+        n = [0]
+
+        def add(prefix, ranges, ty, array=None):
+            n[0] += 1
+            fs.append(field("%s%d" % (prefix, n[0]), ranges, ty, array=array, syn=h("zoo", N, n[0]) % 12))
+
+        for w in NATIVE:
+            if w > N:
+                continue
+            places = sorted({0, N - w, (N - w) // 2})
+            for lo in places:
+                add("s", [(lo, lo + w - 1)], T_int(w))
+                add("u", [(lo, lo + w - 1)], T_uint(w))
+        for w in sorted({1, 2, 3, 5, 7, N - 1, N}):
+            if 1 <= w <= N and not is_native(w):
+                add("a", [(N - w, top)], T_uint(w))
+        add("bt", [(top, top)], T_bool())
+        add("bb", [(0, 0)], T_bool())
+        if N >= 4:
+            add("nf", [(N - 2, top), (0, 1)], T_uint(4))      # top-touching range first
+            add("nl", [(0, 1), (N - 2, top)], T_uint(4))      # ... last
+        if N >= 5:
+            add("nm", [(0, 0), (top, top), (2, 2)], T_uint(3))  # ... in the middle
+        if N >= 8:
+            add("nsf", [(N - 4, top), (0, 3)], T_int(8))
+            add("nsl", [(0, 3), (N - 4, top)], T_int(8))
+            add("nuf", [(N - 4, top), (0, 3)], T_uint(8))
+        if N >= 16:
+            add("ns16", [(N - 8, top), (0, 7)], T_int(16))
+            add("ns16m", [(0, 3), (N - 8, top), (4, 7)], T_int(16))
+        # arrays whose last element ends at the top bit
+        if N >= 2:
+            add("ab", [(N - 2, N - 2)], T_bool(), array={"k": 2, "stride": None})
+            add("au1", [(N - 2, N - 2)], T_uint(1), array={"k": 2, "stride": 1})
+        if N >= 4:
+            add("au2", [(N - 4, N - 3)], T_uint(2), array={"k": 2, "stride": None})
+            add("anc", [(N - 4, N - 4), (N - 2, N - 2)], T_uint(2), array={"k": 2, "stride": 1})
+        if N >= 7:
+            add("au3", [(N - 7, N - 5)], T_uint(3), array={"k": 2, "stride": 4})
+        if N >= 16:
+            add("as8", [(N - 16, N - 9)], T_int(8), array={"k": 2, "stride": None})
+            add("au8", [(N - 16, N - 9)], T_uint(8), array={"k": 2, "stride": 8})
+            add("ancs", [(N - 12, N - 9), (N - 16, N - 13)], T_int(8), array={"k": 2, "stride": 8})
+        if N >= 32:
+            add("as16", [(N - 32, N - 17)], T_int(16), array={"k": 2, "stride": 16})
+        # custom types at the top
+        if N >= 2:
+            add("cx", [(N - 2, top)], T_enum("ZX2", 2, True))
+        if N >= 3:
+            add("co", [(N - 3, top)], T_enum("ZO3", 3, False))
+            add("cn", [(N - 3, top)], T_nested("ZIn3", 3))
+            add("cnc", [(top, top), (0, 0)], T_enum("ZX2", 2, True))
+        if N >= 8:
+            add("cx8", [(N - 8, top)], T_enum("ZX8", 8, True))
+            add("cn8", [(N - 8, top)], T_nested("ZIn8", 8))
+            add("cx8n", [(N - 4, top), (0, 3)], T_enum("ZX8", 8, True))
+        if N >= 6:
+            add("cax", [(N - 4, N - 3)], T_enum("ZX2", 2, True), array={"k": 2, "stride": None})
+        for c in range(0, len(fs), 32):
+            s = struct(mod, "Z%da%d" % (N, c // 32), N, fs[c:c + 32], family="ZOO")
+            add_const_witnesses(s, seed, maxn=2)
+            out.append(s)
+        # builder variants: disjoint complete cover with a signed / non-contiguous / array part at the top
+        if N >= 10:
+            b = [field("low", [(0, N - 9)], T_uint(N - 8)), field("sign", [(N - 8, top)], T_int(8))]
+            s = struct(mod, "Z%db" % N, N, b, family="ZOO")
+            add_const_witnesses(s, seed, maxn=1)
+            out.append(s)
+            b = [field("mix", [(N - 4, top), (0, 3)], T_int(8)), field("mid", [(4, N - 5)], T_uint(N - 8))]
+            dv = h("zoodef", N) & ((1 << N) - 1)
+            s = struct(mod, "Z%dc" % N, N, b, default={"form": "=", "value": dv}, family="ZOO")
+            add_const_witnesses(s, seed, maxn=1)
+            out.append(s)
+        if N >= 4:
+            b = [field("lowb", [(0, N - 3)], T_uint(N - 2)), field("flags", [(N - 2, N - 2)], T_bool(), array={"k": 2, "stride": None})]
+            s = struct(mod, "Z%dd" % N, N, b, family="ZOO")
+            add_const_witnesses(s, seed, maxn=1)
+            out.append(s)
     return out
 
 
@@ -1057,6 +1169,14 @@ def fam_dbg(tier, seed):
                 fs.append(field(nm, rs, t, access="rw" if (lo // 8) % 2 else "r", syn=lo))
             dflt = {"form": "=", "value": rnd.getrandbits(64)} if rep % 2 else None
             out.append(struct(mod, "Dbg%d_%d" % (nf, rep), 64, fs, default=dflt, debug=True, family="DBG"))
+    # fields that alias the same bits (a raw and a typed view), partial overlaps, bool/u1 on one bit
+    out.append(struct(mod, "DbgAlias", 16, [
+        field("mode", [(0, 2)], T_enum("DO", 3, False)), field("enable", [(3, 3)], T_bool()), field("mode_raw", [(0, 2)], T_uint(3)),
+        field("enable_raw", [(3, 3)], T_uint(1)), field("level", [(4, 7)], T_uint(4)), field("level_lo", [(4, 5)], T_uint(2)),
+        field("wide", [(0, 7)], T_uint(8)), field("swapped", [(3, 3), (0, 2)], T_uint(4)), field("mode2", [(0, 2)], T_uint(3)),
+    ], debug=True, family="DBG"))
+    out.append(struct(mod, "DbgAlias2", 8, [field("a", [(0, 7)], T_uint(8)), field("b", [(0, 7)], T_int(8)), field("c", [(0, 7)], T_uint(8), access="r")],
+                      default={"form": "=", "value": 0x5A}, debug=True, family="DBG"))
     # arbitrary base with debug
     out.append(struct(mod, "Dbg24", 24, [field("a", [(0, 11)], T_uint(12)), field("r#fn", [(23, 23)], T_bool())], debug=True, family="DBG"))
     # zero fields
@@ -1116,6 +1236,16 @@ def build_positive(tier, seed, harvested):
     for d in fam_build(tier, seed):
         c.add(d)
     crates.append(c)
+    zoo = fam_zoo(tier, seed)
+    helpers, rest = zoo[:5], zoo[5:]
+    per = 45 if tier == "quick" else 60
+    for i, part in enumerate(chunk(rest, per)):
+        c = Crate("pos_zoo_%d" % i)
+        for d in helpers:
+            c.add(json.loads(json.dumps(d)))
+        for d in part:
+            c.add(d)
+        crates.append(c)
     c = Crate("pos_misc_0")
     for d in fam_acc(tier, seed) + fam_dbg(tier, seed):
         c.add(d)
